@@ -10,15 +10,19 @@ pub struct Poisson {
 
 impl Poisson {
     pub fn arrival_probability(&self, delta: Duration, njobs: usize) -> f64 {
-        // quick and dirty naive factorial: k!
-        let mut denominator = 1.0;
-        for x in 1..(njobs + 1) {
-            denominator *= x as f64;
-        }
         let mean = Time::from(delta) as f64 * self.rate;
-        let mut numerator = (-mean).exp(); // e^(- rate * delta)
-        numerator *= mean.powi(njobs as i32); // (rate * delta)**k
-        numerator / denominator
+        if mean <= 0.0 {
+            // degenerate case: nothing arrives in an empty interval
+            return if njobs == 0 { 1.0 } else { 0.0 };
+        }
+        // Evaluate e^(-mean) * mean^k / k! in log space: for larger means,
+        // mean^k and k! overflow and e^(-mean) underflows long before the
+        // probability itself leaves the representable range.
+        let mut log_probability = njobs as f64 * mean.ln() - mean;
+        for x in 1..(njobs + 1) {
+            log_probability -= (x as f64).ln();
+        }
+        log_probability.exp()
     }
 
     pub fn approximate(&self, epsilon: f64) -> ApproximatedPoisson {
